@@ -34,6 +34,15 @@ from primaite.simulator.network.hardware.node_operating_state import NodeOperati
 from primaite.simulator.system.services.service import ServiceOperatingState  # noqa: E402
 
 PROP = "C16"
+CONVERSE_NOTES = {}
+
+
+def _converse(viols, v):
+    """The statement gives 'only' directions (a login succeeds ONLY with ..., commands are executed ONLY while ...).
+    A refused valid login / an unexecuted command on a live session is therefore not a violation of C16; it is counted
+    (vacuity guard during development) and not reported."""
+    CONVERSE_NOTES[v["clause"]] = CONVERSE_NOTES.get(v["clause"], 0) + 1
+
 IPS = {"C": "10.0.0.2", "C2": "10.0.0.3", "S": "10.0.0.10"}
 RUNNING = ServiceOperatingState.RUNNING
 
@@ -334,7 +343,7 @@ class SessionAdapter(engine.Adapter):
             viols.append(violation("login_only_with_valid_credentials", "local-login:%s" % why,
                                    "local_login(%s, %s password) succeeded; accounts %s, S on=%s" % (user, which, m.users, m.on)))
         elif not ok and why is None and self._server_ready(s):
-            viols.append(violation("valid_login_succeeds", "local-login:refused",
+            _converse(viols, violation("valid_login_succeeds", "local-login:refused",
                                    "local_login(%s, current password) was refused; accounts %s" % (user, m.users)))
         if ok:
             m.login_local(user)
@@ -360,7 +369,7 @@ class SessionAdapter(engine.Adapter):
                                    "send_local_command as %s with the %s password ran the command on S; accounts %s, S on=%s" % (
                                        user, which, m.users, m.on)))
         elif not done and why is None and self._server_ready(s) and self._svc_running(s.S, "terminal"):
-            viols.append(violation("valid_login_succeeds", "local-command:not-executed",
+            _converse(viols, violation("valid_login_succeeds", "local-command:not-executed",
                                    "send_local_command as %s with the current password did not run the command" % user))
         if why is None:
             m.login_local(user)
@@ -390,7 +399,7 @@ class SessionAdapter(engine.Adapter):
                                    "remote login %s@S from %s with the %s password opened a session (answer %s); accounts %s, S on=%s, "
                                    "open remote sessions %d of max %d" % (user, client, which, st, m.users, m.on, len(m.remote), m.max_remote)))
         elif not ok and why is None and clear:
-            viols.append(violation("valid_login_succeeds", "remote-login:refused:open-sessions=%d/%d" % (len(m.remote), m.max_remote),
+            _converse(viols, violation("valid_login_succeeds", "remote-login:refused:open-sessions=%d/%d" % (len(m.remote), m.max_remote),
                                    "remote login %s@S from %s with the current password was refused; accounts %s, open remote "
                                    "sessions %s" % (user, client, m.users, m.remote)))
         if new_s:
@@ -419,7 +428,7 @@ class SessionAdapter(engine.Adapter):
                                    "user-session-manager remote_login %s with the %s password opened a session; accounts %s, "
                                    "S on=%s, open %d of max %d" % (user, which, m.users, m.on, len(m.remote), m.max_remote)))
         elif not new and why is None and self._server_ready(s):
-            viols.append(violation("valid_login_succeeds", "usm-remote-login:refused:open-sessions=%d/%d" % (len(m.remote), m.max_remote),
+            _converse(viols, violation("valid_login_succeeds", "usm-remote-login:refused:open-sessions=%d/%d" % (len(m.remote), m.max_remote),
                                    "user-session-manager remote_login %s with the current password opened no session" % user))
         for sid in new:
             m.open_remote(client, user)
@@ -446,7 +455,7 @@ class SessionAdapter(engine.Adapter):
                                    "(model time %d, live sessions %s)" % (k, mh["client"], why, m.t, m.remote)))
         elif not done and usable and self._path_clear(s, mh["client"]):
             h = s.handles[k]
-            viols.append(violation(
+            _converse(viols, violation(
                 "live_session_command_executes", "%s:refused:client-connection-active=%s:server-connection=%s" % (
                     kind, h["conn"].is_active, "present" if h["sid"] in s.S.terminal._connections else "missing"),
                 "a command sent over live connection #%d (%s) was not executed on S (model time %d, live sessions %s)" % (
